@@ -103,7 +103,9 @@ func rollbackMain(p RollbackParams) {
 	}
 	// post-rollback history on the new branch (only seqnos > R are sent)
 	var log []gocbcore.SimPacket
-	item := func(s uint64) gocbcore.SimPacket { return docPacket("mutation", s, fmt.Sprintf("new%d", s), "after", 0) }
+	item := func(s uint64) gocbcore.SimPacket {
+		return docPacket("mutation", s, fmt.Sprintf("new%d", s), "after", 0)
+	}
 	switch script {
 	case 0:
 	case 1:
@@ -279,7 +281,9 @@ func reopenRollbackMain() {
 		vrt.Failf("harness: %d events", len(e.Cons.Events))
 		return
 	}
-	item := func(s uint64) gocbcore.SimPacket { return docPacket("mutation", s, fmt.Sprintf("new%d", s), "after", 0) }
+	item := func(s uint64) gocbcore.SimPacket {
+		return docPacket("mutation", s, fmt.Sprintf("new%d", s), "after", 0)
+	}
 	type snap struct{ a, b uint64 }
 	announced := map[uint64]snap{}
 	var log []gocbcore.SimPacket
